@@ -152,7 +152,7 @@ pub fn run_case(case: &Case, rep: &mut Report, seed: u64, case_no: u64, class: &
     let rec = match step {
       Step::Set(r, v) => { drv.set(*r, *v); continue; }
       Step::Arm(o, r, on) => { drv.arm(*o, *r, *on); continue; }
-      Step::PanicAt(_) => continue,
+      Step::PanicAt(_) | Step::PanicAtAny(_) => continue,
       Step::TopDown(roots) => drv.session(None, roots),
       Step::BottomUp(roots) => { let ch: Vec<u32> = drv.pending.iter().copied().collect(); let r = drv.session(Some(ch), roots); drv.pending.clear(); r }
     };
